@@ -6,7 +6,7 @@
 // scenario has its own points) and answers with that call's reply, whose
 // blocks are the call's own fixtures: a block that reaches another call is
 // recognised by its hash.  Timers are set to 60 s: no verdict of this class
-// depends on timing (a hang is "not returned after 40 s").
+// depends on timing (a hang is "not returned after 30 s").
 package main
 
 import (
@@ -24,6 +24,8 @@ import (
 	"verifharness/cmd/c23/peer"
 	"verifharness/vh"
 )
+
+const concHangBound = 30 * time.Second // no protocol timer is shorter than 60 s in this class
 
 const mheader0 = `From Coq Require Import String.
 From V Require Import Lib.Base Lib.Hex C23.Model C23.MultiModel.
@@ -224,7 +226,7 @@ func runConcurrent(sc cscenario) (out coutcome) {
 			}
 		}(t)
 	}
-	returned := peer.WaitOrHang(40*time.Second, func() { close(start); wg.Wait() })
+	returned := peer.WaitOrHang(concHangBound, func() { close(start); wg.Wait() })
 	if !returned {
 		out.Hung = true
 		for _, g := range peer.Stacks("blockfetch.(*Client)") {
@@ -276,7 +278,7 @@ func monitorConcurrent(c *vh.Ctx, sc cscenario, out coutcome) (shutdown bool) {
 	rep := map[string]any{"concurrent": sc, "outcome": out}
 	v := func(key, what string) { c.Res.Violate("monitor", key, what, rep) }
 	if out.Hung {
-		v("concurrent:calls-never-returned", fmt.Sprintf("concurrent GetBlock/GetBlockRange calls had not all returned after 40 s although the server answered every request it received; stacks: %v", out.Evidence))
+		v("concurrent:calls-never-returned", fmt.Sprintf("concurrent GetBlock/GetBlockRange calls had not all returned after 30 s although the server answered every request it received; stacks: %v", out.Evidence))
 		return
 	}
 	// blocks that belong to a call: the fixtures named in its reply
@@ -435,13 +437,13 @@ func coqConcurrent(sc cscenario, out coutcome) string {
 		vh.List(progs), vh.List(script), vh.List(order), vh.List(obs))
 }
 
-func runConcurrentOne(c *vh.Ctx, cf *vh.CaseFile, sc cscenario) {
+func runConcurrentOne(c *vh.Ctx, cf *vh.CaseFile, sc cscenario) (hung bool) {
 	c.Begin(map[string]any{"concurrent": sc})
 	out := runConcurrent(sc)
 	canon := fmt.Sprintf("%v", sc)
 	c.Res.Count("concurrent:"+canon, true, "concurrent-callers")
 	if len(out.Results) == 1 && len(out.Results[0]) == 1 && strings.HasPrefix(out.Results[0][0], "connect-error") {
-		return
+		return false
 	}
 	shutdown := monitorConcurrent(c, sc, out)
 	other := false
@@ -457,6 +459,7 @@ func runConcurrentOne(c *vh.Ctx, cf *vh.CaseFile, sc cscenario) {
 	if !out.Hung && !other && !shutdown {
 		cf.Add(coqConcurrent(sc, out), map[string]any{"concurrent": sc, "outcome": out})
 	}
+	return out.Hung
 }
 
 func concurrentClass(c *vh.Ctx) {
@@ -465,7 +468,9 @@ func concurrentClass(c *vh.Ctx) {
 	cf.SetShardSize(40)
 	n := c.Pick(24, 240)
 	for i := 0; i < n; i++ {
-		runConcurrentOne(c, cf, genConcurrent(c.Rng, 4))
+		if runConcurrentOne(c, cf, genConcurrent(c.Rng, 4)) {
+			break // a hang is a violation with a replay; do not pay the bound again in this run
+		}
 	}
 	cf.Flush()
 }
